@@ -79,6 +79,32 @@ PROPS['C14'] = {
         'auto-detection of torn files is not exercised (which reader should claim a fragment is not stated)'],
 }
 
+PROPS['C07'] = {
+    'harness': 'ack_nc', 'level': 'exploration',
+    'runs': {'quick': 2000, 'thorough': 60000},
+    'cpu_s': 300, 'wall_s': 900,
+    'rule': ('one run = 1-5 save cycles in one process; each cycle draws a '
+             'history (clock jumps, collections, earlier compressed saves), a '
+             'source file inside the fixed envelope (0-4 dimensions of length '
+             '1-5, at most one unlimited, int8/16/32, float32/64 and char '
+             'variables incl. scalars, masked variables with fill given as '
+             'fill_value or missing_value, str/int32/float32/float64/array '
+             'attributes), a flavour and compression level, takes the durable '
+             'image at the instant save() returns, applies a handle schedule '
+             '(retain / close / close+drop / drop / drop+collect) and reopens '
+             'ack image, post-schedule file and final file. distinct = '
+             'abstracted trace of (op, flavour, schedule, image, lifecycle '
+             'vector); non-trivial = a handle-schedule step lies between save '
+             'and a reopen'),
+    'components': {'real': REAL, 'stub': ['crash = byte copy of the file at acknowledgement',
+                                          'wall clock', 'GC trigger']},
+    'assumptions': [
+        'a byte copy of a local file equals what survives a process kill at that instant (not power loss)',
+        '_FillValue on disk is netCDF\'s encoding of the mask, not a user attribute; 1-element array attributes and scalars are the same thing on disk',
+        'a second close() of the raw netCDF4 handle returned by save() is upstream code and not generated',
+        'input variety is workload inside a fixed envelope, not the deciding dimension'],
+}
+
 MANIFEST_TEXT = {
     'C05': {
         'text': ('Seeded search over schedules: thousands of simulated runs, '
@@ -144,6 +170,26 @@ MANIFEST_TEXT['C14'] = {
     'technique': 'deterministic simulation: enumeration of crash points (byte prefixes) with the real reader in CPU-limited forked children against producer ground truth',
 }
 
+MANIFEST_TEXT['C07'] = {
+    'text': ('Seeded search over what lies between save() and a later open: '
+             'the durable image at the acknowledgement (byte copy taken the '
+             'instant save returns), the returned handle\'s schedule (retain, '
+             'close, drop, drop+collect), earlier saves in the process '
+             '(compression, class-level writer options), clock jumps, '
+             'collections and handle-id recycling; every image is reopened '
+             '(auto and explicit) and compared field by field with the '
+             'in-memory source, over all four flavours and compression on/off. '
+             'The property is a round trip across the disk, whose outcome '
+             'depends on flush/sync and handle lifetime that unit tests never '
+             'observe; file shapes are workload inside a fixed envelope.'),
+    'design_ref': 'DESIGN.md section 5 (C07)',
+    'note': ('Trusted: snapshot/compare code; a byte copy equals what '
+             'survives a process kill (not power loss). _FillValue is the '
+             'encoding of the mask; scalars and 1-element arrays are the same '
+             'attribute on disk.'),
+    'technique': 'deterministic simulation: crash-at-acknowledgement image + handle lifecycle schedule, reopened file compared with the in-memory source',
+}
+
 NOT_APPLICABLE = {
     'C01': 'pure function of (file, operation sequence): no clock, handle, finaliser, registry or disk state enters any conjunct, so there is no schedule or fault to sample',
     'C02': 'hyperslab selection is a pure function of arrays and selectors; nothing for a simulator to schedule or fault',
@@ -160,7 +206,6 @@ NOT_APPLICABLE = {
 
 # claimed by DESIGN.md but whose check is not built/registered yet
 PENDING = {
-    'C07': 'planned (DESIGN.md section 5, crash-at-acknowledgement image): check not registered yet',
     'C08': 'planned (DESIGN.md section 5): check not registered yet',
     'C09': 'planned (DESIGN.md section 5): check not registered yet',
     'C13': 'planned (DESIGN.md section 5, access-schedule over hidden cursors): check not registered yet',
